@@ -61,6 +61,15 @@ add("C02", "differential testing of the two back ends on generated programs (rap
     "Cases rejected by either target or whose module does not instantiate are outside the property and counted as discards. Native float printing uses %g-style rounding, hence a relative tolerance of 1e-5.",
     "DESIGN.md §4 C02")
 
+add("C04", "differential testing against a reference interpreter on generated fixed-array indexing programs (rapid)",
+    "Generated programs index one fixed array through literals, consts, lets (reassigned before/after/in a branch), arithmetic, loop variables and parameters, for reads, writes and compound writes, with copies in between and canary variables around the array. A compile-time rejection is allowed; an accepted program must print exactly what the reference interpreter (which knows each index value at the moment of execution) prints, and must panic exactly when an index leaves [-N, N). Exploration.",
+    "Trusts the reference interpreter. Overwriting unrelated memory is observed only through the dumped array, its copies and two canary variables.",
+    "DESIGN.md §4 C04")
+add("C08", "model-based testing of generated indexing histories over dynamic arrays and strings against an abstract list (rapid + reference interpreter)",
+    "Generated histories (literal construction, appends - also from inside index expressions -, element assignments, reads/writes with constant and opaque indices in [-len-2, len+1], strings) are compiled and run; valid indices for the current length must be accepted and yield the stored element, invalid ones must end in an index-out-of-bounds panic after all earlier lines were delivered; a compile-time rejection is accepted only if some execution indexes out of range. Exploration.",
+    "Trusts the reference interpreter's list model. One recorded finding (index variable reassigned in an untaken branch is mis-rejected) is excluded by construction.",
+    "DESIGN.md §4 C08")
+
 def main():
     props = [json.loads(l) for l in open(os.path.join(V, "properties.jsonl"))]
     checks, na = [], []
